@@ -218,6 +218,9 @@ def strings(tier):
         for ws in (' ', '  ', '    ', '      '):
             for b in ('b', '  b', '    b'):
                 out.append(a + '\n' + ws + '\n' + b)
+    # targeted: blanks at the end of a non-final line; parenthesised expressions; backslashes before quotes
+    out += ['a \nb', 'a  \n  b', 'x \n\ny  \nz', '(a)', '(a) + (b)', '(lower(x))', '((a))', 'f(a)', 'a)', '(a',
+            "it\\'s", 'C:\\temp', 'a\\\\b', '\\"', 'e\u0301', '\u2126']
     # targeted: runs of quotes in multi-line texts and at the edges
     for core in ("'''", "''''", "a'''", "'''a", "a'''b", "''", "a''", "'a'"):
         out += [core + '\nx', 'x\n' + core, 'x\n' + core + '\ny']
